@@ -397,6 +397,9 @@ def run_property(pid: str, tier: str, seed: int) -> int:
           "assumptions": TRUSTED_BASE + [f"assumed contract (body not verified): {t}" for t in trusted]
                          + [f"partial correctness w.r.t. {rn} raised by {t.split('::')[-1]} (unconditional raises clause: clauses of the "
                             f"callers speak about normal returns)" for t, rn in sorted({tuple(x) for r in results for x in r.get("partial_raises", [])})]
+                         + [f"partial correctness w.r.t. {rn} raised inside {t.split('::', 1)[-1]} itself (unconditional raises clause of its own contract)"
+                            for t in targets for rn, rfn in reg[t].raises if rfn is None]
+                         + [f"precondition of {t.split('::', 1)[-1]}: {cl.note}" for t in targets for cl in reg[t].requires if cl.note][:40]
                          + (extra_assumptions if targets else []),
           "wall_s": round(wall, 2), "violations": len(violations)}
     os.makedirs(EVID, exist_ok=True)
